@@ -1,6 +1,7 @@
 package main
 
-// hx c17, oracle-only stream on chain/account.StorageCache (anchor chain/account/account.go): the
+// hx c17, ORACLE stream on chain/account.StorageCache (anchor chain/account/account.go); the
+// correspondence stream against the model LemoModel.StorageCache is c17_sc.go (`sc.…` ops).  Here: the
 // contract-storage SecureTrie as the account code drives it — dirty entries applied in Go map order
 // (random), values left-trimmed of zero bytes (an all-zero value deletes), Save's root check,
 // TrieDatabase.Commit, reload by root through a NEW StorageCache.  Checked against a Go map:
